@@ -2,6 +2,7 @@ package main
 
 import (
 	"fmt"
+	"os"
 	"go/types"
 	"runtime/debug"
 	"sort"
@@ -12,6 +13,8 @@ import (
 
 	"golang.org/x/tools/go/ssa"
 )
+
+var profPaths = os.Getenv("SYMGO_PROF") != ""
 
 type Finding struct {
 	Kind     string   `json:"kind"`
@@ -52,6 +55,8 @@ type Job struct {
 	MaxPerKey int
 	Stub      func(x *Exec, name string, args []Val) (Val, bool)
 
+	idx         int
+	witCounter  int64
 	mu          sync.Mutex
 	paths       int64
 	ends        map[string]int
@@ -162,7 +167,9 @@ type Sched struct {
 	P        *Program
 	mu       sync.Mutex
 	cond     *sync.Cond
-	queue    []item
+	queues   [][]item // one LIFO stack per job, served in job order so that jobs finish one after another
+	nq       int      // total queued items
+	first    int      // lowest job index that may still have items
 	active   int
 	deadline time.Time
 	stopped  bool
@@ -184,8 +191,10 @@ func newSched(P *Program, deadline time.Time) *Sched {
 func (s *Sched) add(j *Job) {
 	j.start = time.Now()
 	s.mu.Lock()
+	j.idx = len(s.queues)
 	atomic.AddInt64(&j.pendingCnt, 1)
-	s.queue = append(s.queue, item{j, nil})
+	s.queues = append(s.queues, []item{{j, nil}})
+	s.nq++
 	s.mu.Unlock()
 	s.cond.Signal()
 }
@@ -194,16 +203,24 @@ func (s *Sched) pop() (item, bool) {
 	s.mu.Lock()
 	defer s.mu.Unlock()
 	for {
-		if !s.deadline.IsZero() && time.Now().After(s.deadline) && len(s.queue) > 0 {
-			for _, it := range s.queue {
-				it.job.incomplete = true
+		if !s.deadline.IsZero() && time.Now().After(s.deadline) && s.nq > 0 {
+			for qi := range s.queues {
+				for _, it := range s.queues[qi] {
+					it.job.incomplete = true
+				}
+				s.queues[qi] = nil
 			}
-			s.queue = nil
+			s.nq = 0
 			s.stopped = true
 		}
-		if len(s.queue) > 0 {
-			it := s.queue[len(s.queue)-1]
-			s.queue = s.queue[:len(s.queue)-1]
+		if s.nq > 0 {
+			for s.first < len(s.queues) && len(s.queues[s.first]) == 0 {
+				s.first++
+			}
+			q := s.queues[s.first]
+			it := q[len(q)-1]
+			s.queues[s.first] = q[:len(q)-1]
+			s.nq--
 			s.active++
 			return it, true
 		}
@@ -215,22 +232,33 @@ func (s *Sched) pop() (item, bool) {
 	}
 }
 
-func (s *Sched) done(j *Job, pending [][]bool) {
+// push publishes an alternative prefix as soon as it is discovered.
+func (s *Sched) push(j *Job, prefix []bool) {
 	s.mu.Lock()
-	for _, p := range pending {
-		s.queue = append(s.queue, item{j, p})
+	if s.stopped {
+		j.incomplete = true
+		s.mu.Unlock()
+		return
 	}
+	atomic.AddInt64(&j.pendingCnt, 1)
+	s.queues[j.idx] = append(s.queues[j.idx], item{j, prefix})
+	s.nq++
+	if j.idx < s.first {
+		s.first = j.idx
+	}
+	s.mu.Unlock()
+	s.cond.Signal()
+}
+
+func (s *Sched) done(j *Job) {
+	s.mu.Lock()
 	s.active--
-	n := atomic.AddInt64(&j.pendingCnt, int64(len(pending))-1)
+	n := atomic.AddInt64(&j.pendingCnt, -1)
 	if n == 0 {
 		j.wall = time.Since(j.start)
 	}
 	s.mu.Unlock()
-	if len(pending) > 0 {
-		s.cond.Broadcast()
-	} else {
-		s.cond.Signal()
-	}
+	s.cond.Broadcast()
 }
 
 // run explores all queued jobs with n workers.
@@ -254,8 +282,8 @@ func (s *Sched) run(n int) {
 				if !ok {
 					return
 				}
-				pend := x.runPath(it.job, it.prefix)
-				s.done(it.job, pend)
+				x.runPath(it.job, it.prefix)
+				s.done(it.job)
 			}
 		}(w)
 	}
@@ -263,8 +291,11 @@ func (s *Sched) run(n int) {
 }
 
 func (s *Sched) newWorker(w int) *Exec {
-	x := &Exec{P: s.P, globals: map[*ssa.Global]*Cell{}, tables: map[string]string{}}
+	x := &Exec{P: s.P, sched: s, globals: map[*ssa.Global]*Cell{}, tables: map[string]string{}}
 	x.sol = newSolver(s.solver, s.timeout, "")
+	if lf := os.Getenv("SYMGO_LOG"); lf != "" && w == 0 {
+		x.sol.log, _ = os.Create(lf)
+	}
 	x.initWorker()
 	return x
 }
@@ -406,6 +437,7 @@ func (x *Exec) resetPath() {
 	x.vars, x.nvar, x.ntmp, x.nlazy = nil, 0, 0, 0
 	x.named = map[string]string{}
 	x.known = map[string]uint64{}
+	x.notEq = map[string]map[uint64]bool{}
 	x.roots, x.tape, x.notes, x.abstract = nil, nil, nil, nil
 	x.steps, x.depth, x.epoch, x.monitor, x.catching = 0, 0, 1, false, 0
 	x.curFn, x.curPos = nil, ""
@@ -413,7 +445,7 @@ func (x *Exec) resetPath() {
 }
 
 // runPath executes one path (decision prefix) of a job.
-func (x *Exec) runPath(job *Job, prefix []bool) (pending [][]bool) {
+func (x *Exec) runPath(job *Job, prefix []bool) {
 	x.job = job
 	x.prefix = prefix
 	x.resetPath()
@@ -421,9 +453,10 @@ func (x *Exec) runPath(job *Job, prefix []bool) (pending [][]bool) {
 	entry := x.P.entryFunc(job.Entry)
 	if entry == nil {
 		job.noteUnsupported("no harness entry " + job.Entry)
-		return nil
+		return
 	}
 	b0 := x.branches
+	q0, d0 := x.sol.queries, x.sol.dur
 	x.sol.send("(push 1)\n")
 	end := "return"
 	func() {
@@ -446,8 +479,8 @@ func (x *Exec) runPath(job *Job, prefix []bool) (pending [][]bool) {
 		x.call(entry, nil, nil)
 	}()
 	if end == "return" && job.WitEvery > 0 {
-		n := atomic.LoadInt64(&job.paths)
-		if n%int64(job.WitEvery) == 0 {
+		n := atomic.AddInt64(&job.witCounter, 1)
+		if n%int64(job.WitEvery) == 1 || job.WitEvery == 1 {
 			x.sol.send("(push 1)\n")
 			if x.sol.check() == "sat" {
 				var nv []Val
@@ -469,6 +502,9 @@ func (x *Exec) runPath(job *Job, prefix []bool) (pending [][]bool) {
 		}
 	}
 	x.sol.send("(pop 1)\n")
+	if profPaths {
+		fmt.Printf("PATH end=%s decs=%d ntmp=%d nvar=%d steps=%d queries=%d solver_ms=%.1f\n", end, len(x.decs), x.ntmp, x.nvar, x.steps, x.sol.queries-q0, float64(x.sol.dur-d0)/1e6)
+	}
 	atomic.AddInt64(&job.paths, 1)
 	atomic.AddInt64(&job.branches, int64(x.branches-b0))
 	atomic.AddInt64(&job.steps, int64(x.steps))
@@ -478,7 +514,6 @@ func (x *Exec) runPath(job *Job, prefix []bool) (pending [][]bool) {
 		job.funcs[f] = true
 	}
 	job.mu.Unlock()
-	return x.pending
 }
 
 func shortStack() string {
